@@ -3,7 +3,7 @@ check against it.  usage: git -C /repo worktree add /tmp/wt_pd HEAD; python C15_
 git -C /repo worktree remove --force /tmp/wt_pd"""
 import subprocess, sys, os, re
 VERIF = os.environ.get("VERIF_COPY", "/verif")
-WT = "/tmp/wt_pd"
+WT = os.environ.get("WT", "/tmp/wt_pd")
 REL = WT + "/src/krrood/ontomatic/property_descriptor/property_descriptor_relation.py"
 PD = WT + "/src/krrood/ontomatic/property_descriptor/property_descriptor.py"
 MC = WT + "/src/krrood/ontomatic/property_descriptor/monitored_container.py"
@@ -16,7 +16,7 @@ M = {
  "c15-no-role-taker-supers": (REL, "        yield from self.role_taker_super_relations\n", "        pass\n"),
  "c15-trans-incoming-only": (REL, "            self.infer_transitive_relations_outgoing_from_source()\n", "            pass\n"),
  "c15-direct-super-only-first": (REL, "            for f in property_descriptor_cls.get_fields_of_superproperties(source_type)\n", "            for f in property_descriptor_cls.get_fields_of_superproperties(source_type)[:1]\n"),
- "c16-extend-base": (MC, "    def extend(self, items):\n        for item in items:\n            self._add_item(item)", "    def extend(self, items):\n        list.extend(self, items)"),
+ "c16-extend-base": (MC, "    def extend(self, items):\n        for item in list(items):\n            self._add_item(item)", "    def extend(self, items):\n        list.extend(self, items)"),
  "c16-update-base": (MC, "    def update(self, values):\n        for value in values:\n            self._add_item(value)", "    def update(self, values):\n        set.update(self, values)"),
  "c16-insert-bypass": (MC, "    def insert(self, idx, item):\n        item = self._on_add(item)\n", "    def insert(self, idx, item):\n"),
  "c16-setitem-bypass": (MC, "    def __setitem__(self, idx, value):\n        value = self._on_add(value)\n", "    def __setitem__(self, idx, value):\n"),
